@@ -164,6 +164,9 @@ class Impl:
             return TorState.DO_NOT_ATTACH
         if ans == 'x':
             return 'not a circuit'
+        if ans.startswith('z'):
+            # something that is not a circuit and is falsy in Python
+            return [False, 0, '', []][int(ans[1:] or 0) % 4]
         if ans.startswith('c'):
             return self.cobjs[int(ans[1:])]
         raise ValueError(ans)
@@ -381,6 +384,8 @@ def op_line(op):
         return 'circ %s %s' % (q(op[2]), ' '.join(hexs(a) for a in op[1].split()))
     if k == 'strm':
         ans = op[3] if len(op) > 3 and op[3] is not None else '-'
+        if ans.startswith('z'):
+            ans = 'x'
         return 'strm %s %s %s' % (q(op[2]), ans, ' '.join(hexs(a) for a in op[1].split()))
     if k in ('acl', 'asl', 'wb', 'wc', 'cc', 'cs'):
         return '%s %d' % (k, op[1])
@@ -391,7 +396,7 @@ def op_line(op):
     if k == 'att':
         return 'att %s' % ('-' if op[1] is None else op[1])
     if k == 'ans':
-        return 'ans %d %s' % (op[1], op[2])
+        return 'ans %d %s' % (op[1], 'x' if op[2].startswith('z') else op[2])
     if k == 'via':
         return 'via %d %s %d' % (op[1], hexs(op[2]), op[3])
     raise ValueError(op)
